@@ -143,8 +143,7 @@ theorem cumulative_overflow_is_error (p : Plan) (off T : Nat) (e : Entry) (i fla
     scanNext p (off, T, e, i) = .error .eoverflow := by
   have hno : ¬ (off ≥ p.buf.length) := by omega
   have hw : (diff + T) % 4294967296 < T := by omega
-  simp [scanNext, scanEntryCore, scanHeader, hno, hflags, hdiff, VarRes.toR, hw, bind, Except.bind, Except.map, throw,
-    throwThe, MonadExceptOf.throw]
+  simp [scanNext, scanEntryCore, scanHeader, hno, hflags, hdiff, VarRes.toR, hw, bind, Except.bind]
 
 /-- a duration or delay above 2²⁴ seconds is an overflow error -/
 theorem duration_overflow_is_error (p : Plan) (off v o : Nat)
